@@ -83,14 +83,39 @@ def get_ranges(headervalue, content_length):
     if not headervalue:
         return None
 
+    try:
+        return _get_ranges(headervalue, content_length)
+    except ValueError:
+        # From rfc 2616 sec 14.16:
+        # "If the server ignores a byte-range-spec because it
+        # is syntactically invalid, the server SHOULD treat
+        # the request as if the invalid Range header field
+        # did not exist. (Normally, this means return a 200
+        # response containing the full entity)."
+        return None
+
+
+def _range_pos(value):
+    """Return the int for a byte position or suffix length (1*DIGIT)."""
+    if not value.isdigit():
+        raise ValueError('Invalid byte position %r' % value)
+    return int(value)
+
+
+def _get_ranges(headervalue, content_length):
     result = []
     bytesunit, byteranges = headervalue.split('=', 1)
+    if bytesunit.strip().lower() != 'bytes':
+        # A range unit we do not understand: ignore the header.
+        return None
     for brange in byteranges.split(','):
         start, stop = [x.strip() for x in brange.split('-', 1)]
         if start:
-            if not stop:
+            start = _range_pos(start)
+            if stop:
+                stop = _range_pos(stop)
+            else:
                 stop = content_length - 1
-            start, stop = int(start), int(stop)
             if start >= content_length:
                 # From rfc 2616 sec 14.16:
                 # "If the server receives a request (other than one
@@ -102,14 +127,10 @@ def get_ranges(headervalue, content_length):
                 # (Requested range not satisfiable)."
                 continue
             if stop < start:
-                # From rfc 2616 sec 14.16:
-                # "If the server ignores a byte-range-spec because it
-                # is syntactically invalid, the server SHOULD treat
-                # the request as if the invalid Range header field
-                # did not exist. (Normally, this means return a 200
-                # response containing the full entity)."
+                # Syntactically invalid (see the rfc quote in get_ranges).
                 return None
-            result.append((start, stop + 1))
+            # A last-byte-pos at or beyond the end means "up to the end".
+            result.append((start, min(stop, content_length - 1) + 1))
         else:
             if not stop:
                 # See rfc quote above.
@@ -119,10 +140,14 @@ def get_ranges(headervalue, content_length):
             # RFC 2616 Section 14.35.1:
             #   If the entity is shorter than the specified suffix-length,
             #   the entire entity-body is used.
-            if int(stop) > content_length:
+            suffix = _range_pos(stop)
+            if suffix == 0 or content_length == 0:
+                # No byte can satisfy this spec.
+                continue
+            if suffix > content_length:
                 result.append((0, content_length))
             else:
-                result.append((content_length - int(stop), content_length))
+                result.append((content_length - suffix, content_length))
 
     return result
 
